@@ -31,6 +31,7 @@ var (
 	outDir  = flag.String("out", "", "output directory")
 	repoDir = flag.String("repo", "/repo", "repository root")
 	hooks   = flag.Bool("hooks", true, "insert field access hooks")
+	hookExt = flag.Bool("hookext", true, "also hook fields of third-party (non-standard-library) struct types accessed in module code")
 	mapIter = flag.Bool("mapiter", true, "route map ranges through vrt.MapIter")
 	loops   = flag.Bool("loops", true, "insert vrt.Loop() at the head of every for body")
 )
